@@ -153,6 +153,20 @@ def check_budget_loops(rep: Report, f: FuncInfo, budget_param: str, rule: str) -
             off = a[1] + (1 if isinstance(op, ast.LtE) else 0)
             fact = Fact(counter, 'eq' if exact else 'ge', a[0], off)
             exit_label = 'false'
+            # progress: every trip round the loop increases the counter (otherwise the budget never runs out)
+            be_ = [b for b, l_ in cfg.succ[hid] if l_ == 'true']
+            def _steps(k, counter=counter):
+                st_ = cfg.nodes[k].stmt
+                if cfg.nodes[k].kind != 'stmt' or st_ is None:
+                    return False
+                if isinstance(st_, ast.AugAssign) and isinstance(st_.target, ast.Name) and st_.target.id == counter and isinstance(st_.op, ast.Add):
+                    return True
+                return isinstance(st_, ast.Assign) and any(isinstance(t_, ast.Name) and t_.id == counter for t_ in st_.targets) and isinstance(st_.value, ast.BinOp) \
+                    and isinstance(st_.value.op, ast.Add) and counter in names_in(st_.value)
+            okp = bool(be_) and cfg.all_paths_pass(be_[0], _steps, targets={hid})[0]
+            rep.ob(rule + ' progress', where, f"while {norm(nd.expr)}: `{counter}` grows on every iteration", f.loc(nd.stmt), okp,
+                   'the counter is incremented on every path back to the loop test' if okp else
+                   f"an iteration can return to the loop test without increasing `{counter}`: the budget is never exhausted, a non-converging iteration runs forever instead of warning")
         else:
             continue
         starts = [b for b, l in cfg.succ[hid] if l == exit_label]
